@@ -133,8 +133,13 @@ static const char * tk(void) { if (g_pos >= g_ntok) { printf("PARSE-ERROR eof\n"
 static long long tki(void) { return atoll(tk()); }
 static void expect(const char * s) { const char * t = tk(); if (strcmp(t, s)) { printf("PARSE-ERROR expected %s got %s\n", s, t); exit(3); } }
 
-static char ** g_files; static int g_nfiles;
-static const char * fname(long long k) { return g_files[(k % g_nfiles + g_nfiles) % g_nfiles]; }
+/* every file name exists in two copies at different addresses, used alternately, so that the string
+   table has to compare contents and not pointers */
+static char ** g_files; static char ** g_files2; static int g_nfiles; static unsigned g_fcalls;
+static const char * fname(long long k) {
+  int i = (int)((k % g_nfiles + g_nfiles) % g_nfiles);
+  return (g_fcalls++ & 1) ? g_files2[i] : g_files[i];
+}
 
 /* run one task; returns its end time.  *now is the time of the thread of control, w its worker */
 static unsigned long long run_task(dr_dag_node * parent, unsigned long long t_create, int is_root, dr_options * opts, int nw);
@@ -285,7 +290,8 @@ static void run_case(const char * dir) {
   expect("files");
   g_nfiles = (int)tki();
   g_files = (char **)malloc(sizeof(char *) * (g_nfiles + 1));
-  for (i = 0; i < g_nfiles; i++) g_files[i] = strdup(tk());
+  g_files2 = (char **)malloc(sizeof(char *) * (g_nfiles + 1));
+  for (i = 0; i < g_nfiles; i++) { g_files[i] = strdup(tk()); g_files2[i] = strdup(g_files[i]); }
   expect("prog");
   snprintf(prefix, sizeof prefix, "%s/c%lld_%d", dir, id, (int)getpid());
   snprintf(prefix2, sizeof prefix2, "%s/d%lld_%d", dir, id, (int)getpid());
